@@ -15,11 +15,11 @@ SPECS = spec_hex.SPECS
 
 def plan(tier: str, seed: int) -> List[Dict[str, Any]]:
     quick = tier == 'quick'
-    n_single = 12 if quick else 32
+    n_single = 16 if quick else 32
     out = [{'kind': 'single', 'part': i, 'parts': n_single, 'seed': seed, 'tier': tier, 'timeout_s': 1500 if quick else 10000}
            for i in range(n_single)]
-    for i in range(4 if quick else 16):
-        out.append({'kind': 'sequence', 'part': i, 'seed': seed, 'tier': tier, 'programs': 4 if quick else 40,
+    for i in range(6 if quick else 16):
+        out.append({'kind': 'sequence', 'part': i, 'seed': seed, 'tier': tier, 'programs': 5 if quick else 40,
                     'timeout_s': 1500 if quick else 10000})
     return out
 
@@ -32,7 +32,7 @@ def run_shard(spec: Dict[str, Any], journal: Any) -> Dict[str, Any]:
                             hidden=spec_hex.HIDDEN)
     else:
         runner.shard_sequence(rec, SPECS, (spec['seed'], PROPERTY, 'sequence', spec['part']), spec['programs'], spec['tier'], journal,
-                              ['hex', 'bit', 'field'], 'hex', hidden=spec_hex.HIDDEN)
+                              ['hex', 'bit', 'field'], 'hex', hidden=spec_hex.HIDDEN, keep_going=True)
     engines.cleanup_tmpdir()
     return {'counters': rec.counters, 'violations': rec.violations, 'hashes': rec.hashes, 'samples': rec.samples,
             'evaluations': rec.counters.get('monitor_evaluations', 0)}
@@ -51,6 +51,10 @@ def finalize(tier: str, seed: int, counters: Dict[str, Any], evaluations: int, d
         inconclusive.append(f'macros never monitored: {missing}')
     if counters.get('monitor_evaluations', 0) < 100000:
         inconclusive.append(f'only {counters.get("monitor_evaluations", 0)} monitored applications')
+    if counters.get('programs_not_assembled'):
+        inconclusive.append(f'{counters["programs_not_assembled"]} rendered programs did not assemble: {counters.get("assembly_errors")}')
+    if counters.get('unbindable'):
+        inconclusive.append(f'{counters["unbindable"]} (macro, n, w) combinations could not be bound to variables')
     if not counters.get('sequence_programs'):
         inconclusive.append('no sequence program ran')
     if not counters.get('fast_engine_slices'):
@@ -69,5 +73,8 @@ def finalize(tier: str, seed: int, counters: Dict[str, Any], evaluations: int, d
         'inconclusive': inconclusive,
         'assumptions': ['the spec table (fjverif/stlmon/spec_hex.py) is my transcription of the doc comments',
                         'undocumented aliasing of operands is not generated',
-                        'bit.neg is documented "x[:n]--" (copy of the line above); the table uses negation'],
+                        'library-internal state (add/sub carry, hex.mul.dst / add_carry_dst, hex.tables.res/ret, table jumpers) is '
+                        'monitored as variables; a macro whose documentation does not name such a state promises nothing while it is dirty',
+                        'in sequence programs a violation is recorded and the model re-synchronised, so one discrepant macro does not '
+                        'mask the composition checks of the others'],
     }
